@@ -36,7 +36,15 @@ def main():
     tag = "%s-%s-%d" % (pid, os.path.basename(mdir), os.getpid())
     wt, vm = "/tmp/mt-" + tag, "/tmp/vm-" + tag
     res = {"property": pid, "mutant": mdir}
-    meta = json.load(open(os.path.join(mdir, "meta.json"))) if os.path.exists(os.path.join(mdir, "meta.json")) else {}
+    meta = {}
+    for mn in ("meta.json", "agent_meta.json"):
+        if os.path.exists(os.path.join(mdir, mn)):
+            try:
+                meta = json.load(open(os.path.join(mdir, mn)))
+                if meta.get("demo_cmd"):
+                    break
+            except Exception:
+                pass
     try:
         rc, out = sh("git -C /repo worktree add --detach -f %s HEAD" % wt)
         rc, out = sh("git apply --check %s/patch.diff && git apply %s/patch.diff" % (mdir, mdir), cwd=wt)
